@@ -539,6 +539,32 @@ func (g *gen) Case() (Case, string) {
 		cs.Cluster = g.wildCluster()
 		label = "wild"
 	}
+	if g.chance(0.12) {
+		// an otherwise valid cluster whose ONLY server is an unusual endpoint of the cluster's own scheme: no other rule
+		// can reject the object, so under-validation of the endpoint alone reaches the data plane (round 7)
+		cs.Cluster = g.validCluster()
+		scheme := "https"
+		if len(cs.Cluster.Servers) > 0 && strings.HasPrefix(uh(cs.Cluster.Servers[0].Endpoint), "http://") {
+			scheme = "http"
+		}
+		e := g.wildEndpoint(scheme)
+		if g.chance(0.5) {
+			e = g.pick(notorious...)
+		}
+		if g.chance(0.3) {
+			e = g.goodEndpoint(scheme) + g.pick("\n", " ", "\t", "\r\n", "\x00", " ", "%")
+		}
+		if strings.HasPrefix(e, "https://") && scheme == "http" {
+			e = "http://" + strings.TrimPrefix(e, "https://")
+		} else if strings.HasPrefix(e, "http://") && scheme == "https" {
+			e = "https://" + strings.TrimPrefix(e, "http://")
+		}
+		cs.Cluster.Servers = []ServerW{{Endpoint: hx(e)}}
+		for i := range cs.Cluster.Policies {
+			cs.Cluster.Policies[i].UpstreamSubset = nil
+		}
+		label = "sole-unusual-endpoint"
+	}
 	if g.chance(0.6) {
 		cs.Known = g.known()
 	}
